@@ -15,8 +15,8 @@
    configuration the accepted text defines (C08: [text_conforms] and the value
    of ${regress}, of regress-<test>-parallel, of parallel, the canvas step list). *)
 From Robsd Require Import Conf.ConfSpec Conf.ConfTrack Conf.SchedDefs Conf.SchedSpec Conf.ConfTie Conf.SchedProofs Conf.SchedTrack
-  Conf.SchedPure Conf.SchedNames Conf.SchedShadow Conf.SchedOracle.
-From Robsd Require Import Exec.ArgvSpec Exec.SchedBridge Exec.SchedListed.
+  Conf.SchedPure Conf.SchedNames Conf.SchedShadow Conf.SchedOracle Conf.SchedStdout Conf.SchedCanvasEnd.
+From Robsd Require Import Exec.ArgvSpec Exec.ArgvRun Exec.SchedBridge Exec.SchedListed.
 From RobsdGen Require Import Gen_Conf.
 From Coq Require Import String.
 Local Open Scope N_scope.
@@ -33,6 +33,30 @@ Theorem C10_listing_numbered_from_one : forall E m text c steps c1,
   /\ steps <> [] /\ last (names steps) [] = str_end.
 Proof. exact list_cmd_full_nonempty. Qed.
 Print Assumptions C10_listing_numbered_from_one.
+
+(* ... of the STEP LIST.  Read on the LINES of the output - the property's observation point - "numbered
+   consecutively from 1" is REFUTED by a test path that holds a newline (accepted by the parser): the listing
+   shows the lines "7 x" and "7 y parallel", two lines with one number, the second one carrying a flag the test
+   does not have.  Known finding listing-name-with-white-space; under names without white space the lines and the
+   step list determine each other (harness: parse_listing). *)
+Theorem C10_listing_lines_refuted :
+  list_cmd sched_wit_env TRg newline_text None =
+  L_ok (bs "1 env
+2 pkg-add
+3 cvs
+4 patch
+5 obj
+6 mount
+7 x
+7 y parallel
+8 umount
+9 revert
+10 pkg-del
+11 dmesg
+12 end
+").
+Proof. exact listing_newline. Qed.
+Print Assumptions C10_listing_lines_refuted.
 
 (* when does an accepted configuration have a schedule: exactly when every command of it renders in the
    environment of the parsed configuration (robsd-regress: if; the only-if is refuted by the rdomain counter,
@@ -70,6 +94,25 @@ Theorem C10_offset_out_of_range : forall E T text (z : Z),
   list_cmd E T text (Some (render_Z z)) = L_offset_invalid (if (z <? 1)%Z then NumTooSmall else NumTooLarge).
 Proof. exact list_cmd_offset_out_of_range. Qed.
 Print Assumptions C10_offset_out_of_range.
+
+(* the same on what robsd-step -L writes to STDOUT ([stdout_of]: failures print nothing), for EVERY offset
+   1 .. INT_MAX: exactly the suffix starting at step k - for k = N + 1 (and beyond) the empty one.  "offset too
+   large" goes to stderr with status 1; the property's observation point is stdout. *)
+Theorem C10_offset_stdout_suffix : forall E T text c steps c1 (k : nat),
+  config_parse E T text = Accepted c -> get_steps E T (after_parse T c) false = (c1, Some steps) ->
+  (1 <= k)%nat -> (Z.of_nat k <= int_max)%Z ->
+  stdout_of (list_cmd E T text (Some (render_Z (Z.of_nat k)))) = list_lines k (skipn (k - 1) steps).
+Proof. exact offset_stdout_suffix. Qed.
+Print Assumptions C10_offset_stdout_suffix.
+
+Theorem C10_offset_past_end : forall E T text c steps c1,
+  config_parse E T text = Accepted c -> get_steps E T (after_parse T c) false = (c1, Some steps) ->
+  (Z.of_nat (S (List.length steps)) <= int_max)%Z ->
+  list_cmd E T text (Some (render_Z (Z.of_nat (S (List.length steps))))) = L_offset_too_large /\
+  stdout_of (list_cmd E T text (Some (render_Z (Z.of_nat (S (List.length steps)))))) = [] /\
+  list_lines (S (List.length steps)) (skipn (S (List.length steps) - 1) steps) = [].
+Proof. exact offset_past_end_stdout. Qed.
+Print Assumptions C10_offset_past_end.
 
 (* and that text is what remains of the full listing after its first k-1 lines *)
 Theorem C10_offset_is_suffix_of_full : forall k steps,
@@ -331,14 +374,47 @@ Theorem C10_listed_command_nonempty_refuted :
 Proof. exact canvas_empty_command. Qed.
 Print Assumptions C10_listed_command_nonempty_refuted.
 
-(* the canvas theorems above model "append end to the configured steps".  The source as shipped did
-   that through a by-value copy of the vector pointer and lost the whole list whenever the append made the
-   vector grow (16 configured steps: double free; 32: nothing listed); /repo 8c850c1 reserves the room through
-   the real vector first.  The translator tells which body the source has; the model is faithful only for the
-   repaired one, so this pin must hold for the canvas theorems to speak about the code. *)
-Theorem C10_canvas_end_appended_in_place : canvas_end_reserved = true.
-Proof. exact eq_refl. Qed.
+(* ... and what the runner does with such a step since /repo 8e76449: it refuses it - "empty step command", status
+   [empty_exit] = 1, nothing forked - for every kernel function, signal and handshake case (C06's step_exec_run on
+   the view of the parsed configuration, which for these modes IS the runner on the text: C10_one_runner_view).
+   The NAME is resolvable, the command is diagnosed as unusable; no crash is left.  Stops compiling if the test
+   is removed from step_exec. *)
+Theorem C10_listed_empty_command_refused : forall E m text c tr name xs kern g hs,
+  m <> ROBSD_REGRESS -> config_parse E (tables_of m) text = Accepted c ->
+  let c' := after_parse (tables_of m) c in
+  benv E m c' tr TRACE <> None ->
+  SchedDefs.resolve E (tables_of m) text tr name = Some [] ->
+  step_exec_run empty_command_checked true (view_of E m c' tr xs) tr name kern g hs
+    = Exited (mkrun None empty_exit [DEmptyCmd]).
+Proof. exact (fun E m text c tr name xs kern g hs => listed_empty_command_refused E m text c tr name xs kern g hs eq_refl). Qed.
+Print Assumptions C10_listed_empty_command_refused.
+
+(* the canvas theorems above model "append end to the configured steps" ([after_parse]).  The source as shipped
+   did that through a by-value copy of the vector pointer and LOST the whole list whenever the append made the
+   vector grow - libks doubles the capacity from 16, so with exactly 16, 32, 64, ... configured steps (double
+   free with 16, nothing listed with 32); /repo 8c850c1 reserves the room through the real vector first.  The
+   translator tells which body the source has ([canvas_end_reserved]); Conf/SchedCanvasEnd.v carries the switch
+   INTO the model: [list_cmd_with reserved] is robsd-step -L with the loss taken into account (the driver runs
+   it: command listv), and for the source in force it is [list_cmd] - so the canvas theorems speak about the code.
+   This stops compiling when the reservation is removed. *)
+Theorem C10_canvas_end_appended_in_place :
+  forall E T text offset, list_cmd_with canvas_end_reserved E T text offset = LV (list_cmd E T text offset).
+Proof. exact (list_cmd_in_force eq_refl). Qed.
 Print Assumptions C10_canvas_end_appended_in_place.
+
+(* HISTORICAL PIN: without the reservation the list is lost exactly when the number of configured steps is a growth
+   point of the vector; 16 and 32 steps are lost, 15 are listed, and with the reservation 17 / 33 lines are printed *)
+Theorem C10_canvas_end_unreserved_refuted :
+  (forall c, end_append_loses false (tables_of CANVAS) c = grows_at (List.length (c_steps c))) /\
+  map grows_at [1; 15; 16; 17; 31; 32; 33; 63; 64; 65; 128]%nat
+    = [false; false; true; false; false; true; false; false; true; false; true] /\
+  list_cmd_with false canvas_wit_env (tables_of CANVAS) (canvas_text 16) None = LV_lost /\
+  list_cmd_with false canvas_wit_env (tables_of CANVAS) (canvas_text 32) None = LV_lost /\
+  lines_listed (list_cmd_with true canvas_wit_env (tables_of CANVAS) (canvas_text 16) None) = Some 17%nat /\
+  lines_listed (list_cmd_with true canvas_wit_env (tables_of CANVAS) (canvas_text 32) None) = Some 33%nat /\
+  lines_listed (list_cmd_with false canvas_wit_env (tables_of CANVAS) (canvas_text 15) None) = Some 16%nat.
+Proof. exact (conj end_append_unreserved (conj growth_points canvas_end_unreserved_refuted)). Qed.
+Print Assumptions C10_canvas_end_unreserved_refuted.
 
 (* ------------------------------------------------------------------ the oracles of the harness *)
 (* SchedSpec.spec_full_ok / spec_offset_ok are applied by the harness to what robsd-step -L printed.  They
